@@ -97,6 +97,15 @@ func verifProbeStep(m *Monitor, failed0 uint64, ok0 bool) bool {
 //verif:loop (*~/client/health.Monitor).checkWorker 1 inv=verifProbeInv args=monitor
 func verifProbeInv(m *Monitor) bool { return m.maxFailedTimes >= 1 }
 
+// The probe loop ends only because the monitor itself was stopped (its own
+// context is done) - never because one probe ran into its deadline: a timed-out
+// probe is a failed probe, counted like any other.
+//
+//verif:loopexit (*~/client/health.Monitor).checkWorker 1 check=verifProbeLoopEndsOnlyWhenStopped
+func verifProbeLoopEndsOnlyWhenStopped(monitor *Monitor, failed0 uint64, ok0 bool) bool {
+	return verif.CalledWithInIter("Context).Done", 0, monitor.ctx)
+}
+
 //verif:contract (*~/client/health.Monitor).checkWorker
 //verif:props C19
 func verif_checkWorker(m *Monitor) {
